@@ -283,6 +283,9 @@ mod python;
 #[cfg(target_family = "wasm")]
 mod wasm;
 
+#[cfg(any(grex_verif, kani))]
+pub mod verif_hooks;
+
 pub use builder::RegExpBuilder;
 
 #[cfg(target_family = "wasm")]
